@@ -1,13 +1,14 @@
 (* Props/C11Known.v — refutation of the one containment defect claimed for the current tree
-   (Actual/ContainActual.v: q_value_error_escapes).  The abstract witness below is what happens with the real
-   input corpus/C11/hex_literal_*.json: the magic-numbers rule raises ValueError ("Exceeds the limit (4300
-   digits) for integer string conversion") on a 5000-digit hexadecimal literal. *)
+   (Actual/ContainActual.v: q_value_error_escapes).  The abstract witness below is what happened with the real
+   input corpus/C11/hex_literal_*.json before /repo commit c31b9fc (the magic-numbers rule raised ValueError
+   "Exceeds the limit (4300 digits) for integer string conversion" on a 5000-digit hexadecimal literal); the
+   re-raising clause itself is still in the source, so any rule raising a ValueError on content has this effect. *)
 From TL Require Import Lib.Base Lib.GenTypes Model.ContainTypes Gen.ContainGen Model.Contain Model.ContainRun Actual.ContainActual.
 
 Definition w_rules : list rule :=
-  [ {| r_id := "nesting"; r_res := fun p => Ok [("nesting", p, 3)]; r_contrib := fun _ => []; r_final := fun _ => Ok [] |};
+  [ {| r_id := "nesting"; r_res := fun p => Ok [("nesting", p, 3)]; r_contrib := fun _ => []; r_final := fun _ => Ok []; r_cross := false |};
     {| r_id := "magic-numbers"; r_res := fun p => if String.eqb p "big.py" then Fail EValue else Ok [("magic-numbers", p, 5)];
-       r_contrib := fun _ => []; r_final := fun _ => Ok [] |} ].
+       r_contrib := fun _ => []; r_final := fun _ => Ok []; r_cross := false |} ].
 Definition w_files : list string := ["a.py"; "big.py"; "b.rs"].
 
 (* sequential run: the whole run is lost, the command exits 2 *)
@@ -25,12 +26,11 @@ Theorem C11_value_error_siblings_lost_refuted :
               [("nesting", []); ("magic-numbers", [])].
 Proof. vm_compute. reflexivity. Qed.
 
-(* parallel path: the run survives but the other rule's finding for the offending file is dropped *)
-Theorem C11_value_error_parallel_drops_file_refuted :
-  fst (par_all contain_actual w_rules w_files) <> Ok (spec_cells w_rules w_files)
-  /\ In ("big.py", "nesting", [("nesting", "big.py", 3)]) (spec_cells w_rules w_files)
-  /\ fst (par_file contain_actual w_rules "big.py") = Ok [("big.py", "nesting", []); ("big.py", "magic-numbers", [])].
-Proof. vm_compute. repeat split; try reflexivity; [discriminate|]. right. right. left. reflexivity. Qed.
+(* parallel path: worker and future reader re-raise it as well, the run is lost in the same way *)
+Theorem C11_value_error_parallel_refuted :
+  fst (run_par contain_actual w_rules w_files) = Crashed EValue
+  /\ fst (run_par contain_actual w_rules w_files) <> spec_run w_rules w_files.
+Proof. vm_compute. split; [reflexivity|discriminate]. Qed.
 
 (* UnicodeDecodeError and JSONDecodeError are ValueErrors too *)
 Theorem C11_value_family_members_refuted :
